@@ -108,6 +108,10 @@ func (y *yieldAst) CallFor(cond, post, body ast.Expr) *ast.CallExpr {
 	if isNil(post) {
 		return y.SeqCall(cstWhile, cond, body)
 	}
+	if isNil(cond) {
+		// for init; ; post { ... }, For accepts a nil cond
+		cond = X.Ident("nil")
+	}
 	return y.SeqCall(cstFor, cond, post, body)
 }
 
